@@ -472,7 +472,10 @@ BlocksInOrder(P) == SetToSortSeq(P, LAMBDA A, B : Min(A) < Min(B))
 LenOf(S, pat) ==
   CASE pat = 0 -> R(1)
     [] pat = 1 -> R((Min(S) + Cardinality(S)) % 4)          \* 0..3, zero lengths included
-    [] OTHER   -> <<2 * Min(S) + 1, 4>>                      \* quarters (exact in float32)
+    [] pat = 2 -> <<2 * Min(S) + 1, 4>>                      \* quarters (exact in float32)
+    \* signed quarters: negative lengths on leaf branches and on branches below inner nodes (a TreeNode
+    \* takes any number; neighbour joining returns such trees for matrices that are not tree-like)
+    [] OTHER   -> IF (Min(S) + Cardinality(S)) % 2 = 0 THEN <<-(2 * Min(S) + 1), 4>> ELSE <<2 * Min(S) + 3, 4>>
 
 \* all rooted trees over leaf set S: arity 2..MaxArity at every inner node, optionally one unary
 \* node above a sub-tree (unary = TRUE)
